@@ -15,6 +15,9 @@ def pow2 (k : Nat) : Rat := ((2 ^ k : Nat) : Rat)
 def parseVal (w : String) : Option Val :=
   if w == "M" then some .missing
   else if w == "N" then some .nan
+  else if w == "P" then some (.inf false)
+  else if w == "Q" then some (.inf true)
+  else if w == "Z" then some .negZero
   else if w.startsWith "X" then (w.drop 1).toNat?.map .nonNum
   else if w.startsWith "I" then (w.drop 1).toInt?.map .int
   else if w.startsWith "D" then
@@ -47,11 +50,14 @@ def f64ToRat (bits : Nat) : Option Rat :=
 
 /-- implementation result tokens -/
 inductive Tok
-  | null | int (i : Int) | nan | num (q : Rat) | x (tag : Nat) | bad
+  | null | int (i : Int) | nan | num (q : Rat) | x (tag : Nat) | inf (neg : Bool) | negZero | bad
 
 def parseTok (w : String) : Tok :=
   if w == "null" then .null
   else if w == "Fnan" then .nan
+  else if w == "F7ff0000000000000" then .inf false
+  else if w == "Ffff0000000000000" then .inf true
+  else if w == "F8000000000000000" then .negZero
   else if w.startsWith "I" then (match (w.drop 1).toInt? with | some i => .int i | none => .bad)
   else if w.startsWith "X" then (match (w.drop 1).toNat? with | some t => .x t | none => .bad)
   else if w.startsWith "F" then
@@ -78,6 +84,10 @@ def agrees (m : Res) (t : Tok) (c : Cmp) : Bool :=
   | .val (.nonNum a), .x b => a == b
   | .val .nan, .nan => true
   | .flt .nan, .nan => true
+  | .val (.inf a), .inf b => a == b
+  | .flt (.inf a), .inf b => a == b
+  | .val .negZero, .negZero => true             -- first/last hand the value through, sign included
+  | .flt (.num q), .negZero => q == 0           -- sign of a computed zero is not modelled
   | .val (.flt q), .num r => q == r
   | .flt (.num q), .num r =>
     (match c with
@@ -92,10 +102,13 @@ def fmtRes : Res → String
   | .null => "null"
   | .int i => s!"I{i}"
   | .flt .nan => "Fnan"
+  | .flt (.inf s) => if s then "F-inf" else "F+inf"
   | .flt (.num q) => s!"F({fmtRat q})"
   | .val .missing => "null"
   | .val (.nonNum t) => if t == 0 then "null" else s!"X{t}"
   | .val .nan => "Fnan"
+  | .val (.inf s) => if s then "F-inf" else "F+inf"
+  | .val .negZero => "F(-0)"
   | .val (.int i) => s!"I{i}"
   | .val (.flt q) => s!"F({fmtRat q})"
 
